@@ -233,11 +233,11 @@ Proof.
 Qed.
 
 Theorem b2_matches_are_link_matches X ord e st b lvl s s' mds : b2_agree e st -> b2_link_ok b = true ->
-  wf_state st -> ok_oracle ord ->
+  wf_state st -> ok_oracle ord -> s_excl st = [] (* no ctl:ruleRemoveTarget* ran: Setvar.v has none *) ->
   Setvar.eval_link (b2_op X) e (bl_sv X b) lvl s = (s', mds) ->
   Permutation (map sv_triple mds) (map m_triple (Match.link_matches X ord st (bl_m b))).
 Proof.
-  intros Hag Hok Hwf Hord H. etransitivity; [eapply b2_matches_are_spec; eassumption|].
+  intros Hag Hok Hwf Hord Hex H. etransitivity; [eapply b2_matches_are_spec; eassumption|].
   apply Permutation_map, Permutation_sym, link_matches_spec; try assumption. apply b2_link_ok_reads; assumption.
 Qed.
 
